@@ -10,6 +10,47 @@ ALL = ["C%02d" % i for i in range(1, 21)]
 
 # id -> dict(category, text, note, technique, design_ref, thorough(bool))
 CHECKS = {
+    "C01": dict(
+        category="model_checking",
+        text="spec/Channel (update logs, commitment chains, durable state, restore, reestablish; exact msat) is checked "
+             "exhaustively by TLC for all interleavings of add/settle/fail/update_fee/sign/revoke with in-order delivery "
+             "within small bounds (NoError = every honest signature verifies, Conservation, Mirror); TLC-generated "
+             "behaviours (5 adds per side incl. dust-straddling amounts and equal-hash duplicates, fee updates, either "
+             "opener) are replayed on two real LightningChannels of all 7 channel types; after every API call the real "
+             "counters, commitment chains, balances, HTLC sets, fee rate and both update logs entry by entry must equal "
+             "the model's (TLC trace validation), exact-msat conservation and outputs+fee<=capacity are evaluated by TLC on "
+             "the recorded numbers, and the signer's and verifier's commitment txids must agree.",
+        note="bounded model + sampled long behaviours: not a proof about the Go code; crypto is real in the executor "
+             "(signer, sig pool, script engine), abstract in the spec; constraint rejections of AddHTLC are not judged; "
+             "second-level HTLC tx byte-equality is covered through HTLC signature verification in ReceiveNewCommitment",
+        technique="TLA+ spec + TLC exhaustive model checking + replay of TLC behaviours on real lnwallet channels + TLC trace validation",
+        design_ref="DESIGN.md 4.1, 5/C01"),
+    "C02": dict(
+        category="model_checking",
+        text="On the model: RestoreFaithful (reloaded chains exact, restored logs consistent with restored commitments, "
+             "counters cover what was signed), NeverBroadcastRevoked and NoError/Mirror after Disconnect at any point, "
+             "exhaustively within bounds. On the code: a second channel object is re-created from the database "
+             "(FetchOpenChannels+NewLightningChannel) after EVERY API call of every replayed behaviour (so every call "
+             "boundary is a crash point, for either side) and its full projection must equal the spec's Restored(disk); "
+             "the reload must not fail, the reloaded local commitment must be fully signed (script engine against the "
+             "funding output), and behaviours continue after real reconnects.",
+        note="bolt kvdb only (etcd/postgres not available offline); each channeldb write is one atomic kvdb transaction "
+             "and each API call makes at most one, so call boundaries are the crash points; forwarding packages are "
+             "covered by the C08 harness, not here",
+        technique="TLA+ spec + TLC model checking + shadow reload after every call validated by TLC against the spec's Restore operator",
+        design_ref="DESIGN.md 4.1, 5/C02, 10.6b (F6, F7 fixed)"),
+    "C03": dict(
+        category="model_checking",
+        text="On the model: no resync error, every retransmitted signature verifies, Mirror after resync, for every "
+             "disconnect instant incl. repeated disconnects and disconnects during resync (exhaustive within bounds). On "
+             "the code: TLC-generated behaviours with up to 5 disconnects are replayed on real channels (both sides "
+             "reloaded, ChanSyncMsg/ProcessChanSyncMsg, all 7 types incl. taproot nonces); the list of retransmitted "
+             "messages in order, the absence of any error and the complete state after every step must equal the model's.",
+        note="link-faithful schedules (receive-commit+revoke fused as in htlcswitch); the API-level finding F1 "
+             "(sign-before-revoke peers, DESIGN 10.2) is outside the registered schedules; data-loss-protect field "
+             "stripping variant not yet exercised",
+        technique="TLA+ spec + TLC model checking + replay with disconnect/reestablish on real channels + TLC trace validation",
+        design_ref="DESIGN.md 4.1, 5/C03"),
     "C06": dict(
         category="model_checking",
         text="spec/Shachain is checked exhaustively by TLC for trees of height 4-5 (thorough: up to 8) incl. corrupted "
@@ -18,8 +59,10 @@ CHECKS = {
              "structural bit patterns through NewRevocationStoreFromBytes) are replayed on the real "
              "RevocationStore/Producer and every recorded answer is validated by TLC against the same spec.",
         note="hash values abstracted to (family,index) - SHA-256 assumed collision free; executor projection "
-             "(lenBuckets, index, Encode length, LookUp==producer value) is trusted; part B (release rule) is judged "
-             "on channel traces",
+             "(lenBuckets, index, Encode length, LookUp==producer value) is trusted; part B (release rule: the "
+             "secret in every revoke_and_ack is the one the model releases and the durable local commitment read back "
+             "from the database at that moment is newer; NeverBroadcastRevoked, SecretsInOrder) is judged on channel "
+             "traces by ChannelTrace_C06",
         technique="TLA+ spec + TLC exhaustive model checking + TLC trace validation of replayed behaviours on the real store",
         design_ref="DESIGN.md 4.2, 5/C06"),
 }
